@@ -587,6 +587,48 @@ fn run_once(
         }
     }
 
+    if property == "C05" && report.violation.is_none() && env.store.is_some() && !stopped && store_cfg.persistent {
+        // a device emptied by deletes offers exactly what a fresh one does: one free run over
+        // the whole data area, zero live records, zero bytes in use
+        let keys: Vec<Vec<u8>> = model.map.keys().cloned().collect();
+        let mut ok = true;
+        for k in &keys {
+            match env.st().delete(k) {
+                Ok(()) => {
+                    model.map.remove(k);
+                }
+                Err(feoxdb::FeoxError::OlderTimestamp) => ok = false, // key pinned at the maximum timestamp
+                Err(e) => {
+                    report.fail("delete-failed", format!("emptying the device: delete failed with {e:?}"));
+                    ok = false;
+                }
+            }
+        }
+        if ok && report.violation.is_none() {
+            let flushed = env.st().flush();
+            let _ = env.settle();
+            let flushed = flushed.and_then(|_| env.st().flush());
+            match flushed {
+                Ok(()) => {
+                    let space = env.st().verif_space();
+                    let total = env.st().verif_device_size() / 4096;
+                    if space.runs_by_start != vec![(16, total - 16)] || env.st().verif_disk_usage() != 0 || env.st().len() != 0 {
+                        report.fail(
+                            "emptied-device-not-fresh",
+                            format!("after deleting every key and flushing, the free pool is {:?} (expected one run 16+{}), disk usage {}, len {}", space.runs_by_start, total - 16, env.st().verif_disk_usage(), env.st().len()),
+                        );
+                    } else {
+                        report.count("emptied_device_checks", 1);
+                        if let Err(f) = checks::check_durable_image(&env, &model, true) {
+                            report.fail(f.rule, format!("after emptying the device: {}", f.detail));
+                        }
+                    }
+                }
+                Err(feoxdb::FeoxError::OutOfSpace) => report.count("stopped_out_of_space", 1),
+                Err(e) => report.fail("flush-failed", format!("emptying the device: flush failed with {e:?}")),
+            }
+        }
+    }
     if report.violation.is_none() && env.store.is_some() && !stopped {
         let now = sim.now_wall();
         let r = checks::check_readback(&env, &model, now);
